@@ -54,7 +54,7 @@ def Cfg.effMax (c : Cfg) : Option Nat :=
 structure Tr where
   first : Int        -- ArrivalTime
   sendBy : Int       -- SendBy
-  count : Nat        -- DescendantCount()
+  count : Nat        -- DescendantCount(): descendants of all kinds (spans, span events, links)
   hasRoot : Bool     -- RootSpan != nil
   size : Nat         -- DataSize
   deriving Repr, DecidableEq
@@ -77,9 +77,18 @@ structure St where
   memo : AList Nat Nat := []   -- `Trace.totalImpact`: memoised cache impact (absent / 0 = not memoised)
   deriving Repr
 
+/-- how the code classifies an arriving descendant (`types.Span.AnnotationType`, from
+`meta.annotation_type`): a plain span, a span event or a span link -/
+inductive Kind where
+  | plain | spanEvent | link
+  deriving Repr, DecidableEq
+
 inductive Op where
   | adv (d : Nat)                                   -- the clock only moves forward
-  | span (id : Nat) (root : Bool) (size : Nat)      -- processSpan at `now`
+  /-- `processSpan` at `now`.  The kind is carried but never read: `Trace.DescendantCount()` is
+  `len(spans)` — every stored descendant, span events and links included — and it is this count
+  that `processSpan` compares with `SpanLimit` and that selects the send reason. -/
+  | span (id : Nat) (root : Bool) (size : Nat) (kind : Kind := .plain)
   | tick (taken : List Nat)                         -- sendExpiredTracesInCache(now); acceptor input
   /-- `sendTracesEarly(bytes)`; acceptor inputs: the impacts the code computed, the order in which it
   ejected, and per buffered trace its spans as (data size, lower and upper bound of
@@ -268,7 +277,7 @@ def evictionShare (heap maxAlloc workers : Nat) : Option Nat :=
 
 def step (s : St) : Op → St × Out
   | .adv d => ({ s with now := s.now + d }, .none)
-  | .span id root size => processSpan s id root size
+  | .span id root size _ => processSpan s id root size
   | .tick taken => tick s taken
   | .eject bytes imp order ages => eject s bytes imp order ages
 
@@ -326,7 +335,7 @@ def Spec.arrOf (sp : Spec) (id : Nat) : Arr :=
 
 def Spec.step (c : Cfg) (sp : Spec) : Op → Spec
   | .adv d => { sp with now := sp.now + d }
-  | .span id root _ =>
+  | .span id root _ _ =>
     let a : Arr := sp.arrOf id
     let cnt := a.count + 1
     let a' : Arr :=
